@@ -3,6 +3,7 @@
 mod lib_util;
 mod windows;
 mod c01;
+mod c03;
 mod c10;
 mod queries;
 
@@ -56,6 +57,7 @@ fn main() {
   silence_panics();
   let n = match prop.as_str() {
     "C01" => c01::run(&ctx),
+    "C03" => c03::run(&ctx),
     "C10" => c10::run(&ctx),
     _ => {
       eprintln!("unknown property {}", prop);
